@@ -22,6 +22,7 @@ import pkgutil
 import struct
 import enum
 
+import dns.exception
 import dns.immutable
 import dns.name
 import dns.rdata
@@ -532,9 +533,9 @@ def templates(spec):
                 for an in ALT_NAMES:
                     if an.lower() != p.text.lower():
                         auto.append(spec.parts[:i] + [Nm(an, p.mode)] + spec.parts[i + 1:])
-            elif len(p) > 0:
-                for pos in {0, len(p) - 1}:
-                    for delta in (1, 255):
+            elif len(p) > 0 and i < 4:
+                for pos, delta in sorted({(0, 1), (len(p) - 1, 1), (len(p) - 1, 255)}):
+                    if True:
                         q = bytearray(p)
                         q[pos] = (q[pos] + delta) % 256
                         auto.append(spec.parts[:i] + [bytes(q)] + spec.parts[i + 1:])
@@ -751,19 +752,19 @@ def universe(profile):
 class Cfg:
     """(kind, profile, labels used as members, labels used as intruders)."""
 
-    def __init__(self, kind, profile, nkeys):
-        self.kind, self.profile, self.nkeys = kind, profile, nkeys
+    def __init__(self, kind, profile, nkeys, ttls=(0, 5, 10)):
+        self.kind, self.profile, self.nkeys, self.ttls = kind, profile, nkeys, tuple(ttls)
         P = PROFILES[profile]
         self.t = int(dns.rdatatype.from_text(P["rdtype"]))
         self.spec = sm.Spec(kind, IN, self.t, P["singleton"], P["sig"])
         labs = ["a", "A", "b"] + (["c"] if nkeys >= 3 else [])
         if profile == "covers":
             labs.append("x")
-        self.adds = labs + ["xt", "xc"]
+        self.adds = labs + (["xt", "xc"] if kind != "set" else ["xt"])
         self.probe = labs + ["xt"]
 
     def tup(self):
-        return (self.kind, self.profile, self.nkeys)
+        return (self.kind, self.profile, self.nkeys, self.ttls)
 
     def tag(self):
         return self.kind if self.kind == "set" else "%s:%s" % (self.kind, self.profile)
@@ -844,7 +845,7 @@ def events_for(cfg, env):
         for lab in cfg.adds:
             evs.append(["add", X, lab])
             if typed:
-                for ttl in TTLS:
+                for ttl in cfg.ttls:
                     evs.append(["addttl", X, lab, ttl])
         for lab in cfg.probe:
             evs.append(["remove", X, lab])
@@ -852,7 +853,7 @@ def events_for(cfg, env):
         evs.append(["pop", X])
         evs.append(["clear", X])
         if typed:
-            for ttl in TTLS:
+            for ttl in cfg.ttls:
                 evs.append(["update_ttl", X, ttl])
         ys = [others[X], X] + (["U", "V"] if typed else [])
         for Y in ys:
@@ -871,7 +872,7 @@ def events_for(cfg, env):
             evs.append(["delslice", X] + list(sl))
         if cfg.kind == "immutable":
             for lab in cfg.adds:
-                for ttl in (None,) + TTLS:
+                for ttl in (None,) + cfg.ttls:
                     evs.append(["rebuild", X, "add", lab, ttl])
             for lab in cfg.probe:
                 evs.append(["rebuild", X, "discard", lab, None])
@@ -1096,7 +1097,12 @@ def run_transition(cfg, history, ev):
     diff = same_value(post[X], expected.items, expected.ttls, expected.covers)
     if diff:
         if out.raises in (sm.INCOMPATIBLE, sm.COVERS) and diff == ["ttl"]:
-            bad("refused-but-ttl-changed", "the refused operation left ttl=%s" % post[X].ttl)
+            meth = {"|=": "union_update", "+=": "union_update", "^=": "symmetric_difference_update",
+                    "|": "union", "+": "union", "^": "symmetric_difference", "addttl": "add"}.get(
+                        ev[2] if ev[0] in ("iop", "cop") else ev[0], ev[2] if ev[0] in ("iop", "cop") else ev[0])
+            probs.append(("sets/refused-but-ttl-changed/%s" % meth,
+                          "%s after %s; event %s raised %s but left ttl=%s [pre %s=%s]" % (
+                              tag, list(map(list, history)), ev, type(exc).__name__, post[X].ttl, X, show(pre[X]))))
         elif out.raises in (sm.IMMUTABLE, sm.MAYRAISE):
             bad("immutable-set-changed", "now %s" % show(post[X]))
         else:
@@ -1260,15 +1266,18 @@ def run_queries(cfg, history):
                 continue   # refusals are judged by the transitions
             try:
                 if cfg.kind == "immutable":
-                    victim = r._clone() if hasattr(r, "_clone") else None
                     if r.items is env[X].items or r.items is env[Y].items:
                         bad("isolation", "result of %s shares its items with an operand" % nm)
                 else:
-                    r.add(extra)
+                    try:
+                        r.add(extra)
+                    except dns.exception.DNSException:
+                        pass
                     r.discard(uni["a"][0])
                     r.discard(uni["b"][0])
                     if cfg.kind != "set":
                         r.update_ttl(0)
+                    r.clear()
                 for k in names:
                     if canon_of(cfg, snap(cfg, env[k])) != canon_of(cfg, pre[k]):
                         bad("isolation", "mutating the result of %s changed %s" % (nm, k))
@@ -1283,7 +1292,10 @@ def run_queries(cfg, history):
                 before = canon_of(cfg, snap(cfg, im))
                 if before != canon_of(cfg, pre[X])[:3]:
                     bad("immutable-wrap", "ImmutableRdataset(%s) does not hold the value of %s" % (X, X))
-                m.add(extra)
+                try:
+                    m.add(extra)
+                except dns.exception.DNSException:
+                    pass
                 m.discard(uni["a"][0])
                 m.discard(uni["b"][0])
                 m.update_ttl(0)
@@ -1328,7 +1340,7 @@ def expand(state, col):
         case = {"part": "sets", "cfg": list(ctup), "history": [list(e) for e in history], "event": ev}
         probs, succ = run_transition(cfg, history, ev)
         col.count("evaluations")
-        col.outcome("%s:%s" % (ev[0], "ok" if not probs else probs[0][0].split("/")[3]))
+        col.outcome("%s:%s" % (ev[0], "ok" if not probs else "/".join(probs[0][0].split("/")[1:3])))
         for s, w in probs:
             col.violation("C07/" + s, w, case)
         if succ is not None:
@@ -1415,13 +1427,17 @@ def run(ctx):
     ctx.extra["specimen_types"] = len(SPECS)
     ctx.pmap(task_values, tasks)
     # (iii)
-    nk = ctx.pick(2, 3)
-    cfgs = [("set", "plain", 3)]
-    for kind in ("rdataset", "rrset"):
-        cfgs += [(kind, "plain", nk), (kind, "single", nk), (kind, "covers", ctx.pick(2, 2 if kind == "rrset" else 3))]
-    cfgs += [("immutable", "plain", 2), ("immutable", "single", 2), ("immutable", "covers", 2)]
-    ctx.extra["set_configs"] = [dict(zip(("kind", "profile", "distinct_member_keys"), c)) for c in cfgs]
-    ctx.extra["ttl_domain"] = list(TTLS)
+    T3, T2 = (0, 5, 10), (0, 5)
+    if ctx.quick:
+        cfgs = [("set", "plain", 2, ()), ("rdataset", "plain", 2, T3), ("rdataset", "single", 2, T3),
+                ("rdataset", "covers", 2, T2), ("rrset", "plain", 2, T2), ("rrset", "single", 2, T3),
+                ("rrset", "covers", 2, T2), ("immutable", "plain", 2, T2), ("immutable", "single", 2, T3)]
+    else:
+        cfgs = [("set", "plain", 3, ()), ("rdataset", "plain", 3, T3), ("rdataset", "single", 3, T3),
+                ("rdataset", "covers", 3, T3), ("rrset", "plain", 3, T3), ("rrset", "single", 3, T3),
+                ("rrset", "covers", 2, T3), ("immutable", "plain", 3, T2), ("immutable", "single", 3, T3),
+                ("immutable", "covers", 2, T3)]
+    ctx.extra["set_configs"] = [dict(zip(("kind", "profile", "distinct_member_keys", "ttl_domain"), c)) for c in cfgs]
     ctx.extra["bfs_depth"] = "to saturation (no depth cap)"
     init = []
     for c in cfgs:
